@@ -62,4 +62,206 @@ _c13("K13-disj-p2", "c13_disjunction_msm2_prog2", ["Disjunction::<ConstScorer<Ar
      "3 leaves x <=2 docs, minimum_matches_required = 2, programs of 2 calls; unwind 5 + swap loops 20",
      title="Disjunction(min-should-match 2) = docs in >=2 leaves; score = sum of matching", tiers="t", unwindset=[("swap_nonoverlapping", 20)], timeout=900)
 
+# ---------------------------------------------------------------------------------------------
+# C03  queries match exactly the documents their logical meaning prescribes (kernel level)
+# ---------------------------------------------------------------------------------------------
+K("C03", "K03-phrase-kernels", "c03_phrase_exists_count_slop", timeout=240,
+  title="phrase position kernels = quadratic definition (exists / count / exists-with-slop)",
+  functions=["phrase_scorer::intersection_exists", "intersection_count", "intersection_exists_with_slop"],
+  bounds="sorted position lists <= 3 x 3, full u32 positions and slop; unwind 8")
+K("C03", "K03-phrase-inplace", "c03_phrase_intersection_inplace", timeout=300,
+  title="in-place position intersection keeps exactly the common positions in order",
+  functions=["phrase_scorer::intersection"], bounds="<= 3 x 3 positions; unwind 8")
+K("C03", "K03-phrase-slop-count", "c03_phrase_count_with_slop", timeout=300,
+  title="count_with_slop > 0 iff some pair is within the slop; slop 0 = exact count",
+  functions=["phrase_scorer::intersection_count_with_slop"], bounds="<= 3 x 3 positions; unwind 8")
+K("C03", "K03-i64-order", "c03_i64_to_u64_order_roundtrip", crate="tantivy-common", timeout=60,
+  title="i64 <-> u64 mapping is strictly order preserving and bijective",
+  functions=["common::i64_to_u64", "common::u64_to_i64"], bounds="all 2^64 x 2^64 pairs", checks="full")
+K("C03", "K03-f64-order", "c03_f64_to_u64_order_roundtrip", crate="tantivy-common", timeout=60,
+  title="f64 <-> u64 mapping is order preserving on non-NaN values (incl. +-0, infinities) and bit-exact back",
+  functions=["common::f64_to_u64", "common::u64_to_f64"], bounds="all non-NaN pairs", assumes=["inputs are not NaN"], checks="full")
+K("C03", "K03-inter-count", "c03_intersection_count", tiers="t", timeout=900, unwindset=GO_FIRST + [("and_blocks_and_return_is_empty", 18)],
+  title="Intersection::count_including_deleted (sparse and dense block paths) = |A∩B|",
+  functions=["Intersection::count_including_deleted{,_sparse,_dense}", "DocSet::fill_bitset_block (default)"],
+  bounds="2 leaves x <=3 docs, ids < 4000, segment size 1..4000", assumes=[ARR])
+for _g in (1, 2, 3, 10, 1000):
+    K("C03", "K03-range-gcd%d" % _g, "c08_range_transform_gcd%d" % _g, crate="tantivy-columnar", timeout=120, group="range-gcd",
+      title="fast-field range push-down: value in range <=> packed value in transformed range (gcd %d)" % _g,
+      functions=["bitpacked::transform_range_before_linear_transformation", "bitpacked::div_ceil"],
+      bounds="min_value, range bounds full u64; packed <= 2^40; gcd = %d (concrete per harness)" % _g,
+      assumes=["min_value + gcd*packed does not overflow (a value the column can hold)"])
+
+# ---------------------------------------------------------------------------------------------
+# C06  top-K
+# ---------------------------------------------------------------------------------------------
+def _c06(oid, harness, title, fns, bounds, **kw):
+    K("C06", oid, harness, title=title, functions=fns, bounds=bounds,
+      assumes=["documents are pushed in ascending address order (documented precondition of TopNComputer / TopNHeap)"], **kw)
+_c06("K06-topn-k1", "c06_topn_k1_m4_natural", "TopNComputer K=1, 4 pushes = exhaustive ranking incl. ties", ["TopNComputer::{new_with_comparator,push,append_doc,truncate_top_n,into_sorted_vec}", "compare_for_top_k"], "u8 keys (ties abound), NaturalComparator; unwind 7", timeout=120, group="topn")
+_c06("K06-topn-k2", "c06_topn_k2_m5_natural", "TopNComputer K=2, 5 pushes", ["TopNComputer::*"], "u8 keys; unwind 8", timeout=180, group="topn")
+_c06("K06-topn-k2-rev", "c06_topn_k2_m5_reverse", "TopNComputer K=2, ReverseComparator (ascending sort)", ["TopNComputer::*", "ReverseComparator::compare"], "u8 keys; unwind 8", timeout=180, group="topn")
+_c06("K06-topn-k2-m7", "c06_topn_k2_m7_natural", "TopNComputer K=2, 7 pushes (two truncations)", ["TopNComputer::*"], "u8 keys; unwind 10", timeout=600, tiers="t")
+_c06("K06-topn-k3-m7", "c06_topn_k3_m7_natural", "TopNComputer K=3, 7 pushes", ["TopNComputer::*"], "u8 keys; unwind 10", timeout=900, tiers="t")
+_c06("K06-topn-k3-m9", "c06_topn_k3_m9_reverse", "TopNComputer K=3, 9 pushes, ReverseComparator", ["TopNComputer::*"], "u8 keys; unwind 12", timeout=900, tiers="t")
+_c06("K06-threshold", "c06_topn_threshold_sound_k2_m6", "threshold soundness: a dropped push is never in the top K; threshold = key of a pushed item with > K items >= it", ["TopNComputer::push", "truncate_top_n"], "K=2, 6 pushes, u8 keys; unwind 8", timeout=400)
+_c06("K06-heap-k1", "c06_topnheap_k1_m4", "TopNHeap K=1: results are top-K members, threshold = exact K-th best score", ["TopNHeap::{new,push,into_vec}", "ScoreHeapEntry::cmp"], "4 pushes, u8 scores as f32; unwind 8", timeout=120, group="heap")
+_c06("K06-heap-k2", "c06_topnheap_k2_m5", "TopNHeap K=2, 5 pushes", ["TopNHeap::*"], "unwind 8", timeout=180, group="heap")
+_c06("K06-heap-k3", "c06_topnheap_k3_m6", "TopNHeap K=3, 6 pushes", ["TopNHeap::*"], "unwind 8", timeout=400, tiers="t")
+_c06("K06-heap-short", "c06_topnheap_k3_m2", "TopNHeap with fewer docs than K: all returned, no threshold", ["TopNHeap::*"], "K=3, 2 pushes", timeout=120)
+K("C06", "K06-blockmax-tf", "c06_block_wand_tf_upper_bound", timeout=60, title="stored block-max term frequency decodes to an upper bound (exact below 255)",
+  functions=["skip::encode_block_wand_max_tf", "skip::decode_block_wand_max_tf"], bounds="all u32", checks="full")
+K("C06", "K06-score-monotone", "c06_score_monotone_in_tf_factor", timeout=60, title="score = weight * tf_factor is monotone in tf_factor for weight >= 0 (f32)",
+  functions=["f32 multiply as used by Bm25Weight::score"], bounds="all finite weights in [0,1e6], factors in [0,1]")
+K("C06", "K06-merge-k2", "c06_merge_top_k_k2_3segs", tiers="t", timeout=1200,
+  title="merge_top_k over 3 segment fruits in arbitrary intra-segment order = global top K with address tie-break",
+  functions=["sort_key_top_collector::merge_top_k", "TopNComputer::*"], bounds="K=2, 3 segments x 2 items, keys < 4, docs < 16",
+  assumes=["a segment fruit is the segment's top K in ANY order (into_vec promises none)"])
+K("C06", "K06-merge-k4", "c06_merge_top_k_k4_3segs", tiers="t", timeout=3600, mem=40,
+  title="merge_top_k, K=4, segments of 4+2+4 items", functions=["merge_top_k", "TopNComputer::*"], bounds="keys < 3, docs < 16",
+  assumes=["a segment fruit is the segment's top K in ANY order"])
+
+# ---------------------------------------------------------------------------------------------
+# C07  inverted index codecs
+# ---------------------------------------------------------------------------------------------
+for _n, _h in (("positions", "c07_skip_roundtrip_positions"), ("freqs", "c07_skip_roundtrip_freqs"), ("basic", "c07_skip_roundtrip_basic")):
+    K("C07", "K07-skip-" + _n, _h, timeout=240,
+      title="skip list: SkipSerializer (2 full blocks + tail) -> SkipReader new/advance/seek, record option " + _n,
+      functions=["SkipSerializer::{write_doc,write_term_freq,write_total_term_freq,write_blockwand_max}", "SkipReader::{new,read_block_info,advance,seek,block_info,byte_offset,position_offset,remaining_docs}", "compressed_block_size"],
+      bounds="all field values symbolic (doc ids < TERMINATED, bit widths < 32 / <= 32), tail 0..127; unwind 6",
+      assumes=["seek target <= TERMINATED", "bit widths in the range the block encoder returns"])
+K("C07", "K07-skip-short", "c07_skip_short_list", timeout=60, title="posting list shorter than a block: no skip data, VInt block info", functions=["SkipReader::{new,seek}"], bounds="doc_freq < 128")
+K("C07", "K07-bitwidth-code", "c07_bitwidth_code", timeout=60, title="encode/decode_bitwidth round trip", functions=["skip::encode_bitwidth", "skip::decode_bitwidth"], bounds="all widths < 32", checks="full")
+K("C07", "K07-search-block", "c07_search_block_lower_bound", timeout=300, title="in-block 8-ary search = lower bound on every sorted 128-array",
+  functions=["postings::search_block", "block_search::kary_search::<8>"], bounds="128 symbolic sorted u32 + symbolic target <= last; unwind 130",
+  assumes=["array sorted (non-decreasing)", "target <= last element (documented)"])
+K("C07", "K07-vint-sorted", "c07_vint_tail_sorted_roundtrip", timeout=300, title="VInt posting tail (delta encoded doc ids) round trip, bytes consumed = produced",
+  functions=["compression::vint::compress_sorted", "uncompress_sorted"], bounds="1..3 strictly increasing full-width ids, symbolic offset; unwind 7")
+K("C07", "K07-vint-unsorted", "c07_vint_tail_unsorted_roundtrip", timeout=300, title="VInt posting tail (term freqs) round trip incl. until-end variant",
+  functions=["compression::vint::compress_unsorted", "uncompress_unsorted", "uncompress_unsorted_until_end"], bounds="1..3 full-width values; unwind 7")
+K("C07", "K07-block-size", "c07_compressed_block_size", timeout=60, title="compressed_block_size = 16 bytes per bit", functions=["compressed_block_size"], bounds="widths <= 64", checks="full")
+K("C07", "K07-fieldnorm-floor", "c07_fieldnorm_floor", timeout=120, title="field-norm code = floor onto the table, exact <= 40, monotone",
+  functions=["fieldnorm::code::fieldnorm_to_id", "id_to_fieldnorm"], bounds="all u32; unwind 12")
+K("C07", "K07-fieldnorm-table", "c07_fieldnorm_table_strictly_increasing", timeout=60, title="the 256-entry field-norm table is strictly increasing and self-inverse",
+  functions=["FIELD_NORMS_TABLE", "fieldnorm_to_id"], bounds="all 256 ids")
+K("C07", "K07-vint-u32", "c07_vint_u32_roundtrip", crate="tantivy-common", timeout=120, title="common VInt u32: minimal length, reader stops exactly after the integer",
+  functions=["common::vint::serialize_vint_u32", "read_u32_vint"], bounds="all u32, arbitrary trailing bytes; unwind 10")
+K("C07", "K07-vint-u64", "c07_vint_u64_roundtrip", crate="tantivy-common", timeout=120, title="common VInt u64 round trip",
+  functions=["VInt::serialize_into", "VInt::deserialize"], bounds="all u64; unwind 12")
+for _w, _n in ((9, 5), (33, 5)):
+    K("C07", "K07-bitpacker-w%d" % _w, "c08_bitpacker_w%d" % _w, crate="tantivy-bitpacker", timeout=120, group="c07-bp",
+      title="bit-packer (term-info store / positions) round trip, width %d" % _w, functions=["BitPacker::{write,close}", "BitUnpacker::{new,get,get_slow_path}"],
+      bounds="%d symbolic values of width %d, symbolic read index" % (_n, _w), assumes=["values fit the announced width"])
+
+# ---------------------------------------------------------------------------------------------
+# C08  fast fields (codec level)
+# ---------------------------------------------------------------------------------------------
+for _w, _n in ((0, 5), (1, 9), (7, 5), (8, 5), (9, 5), (31, 5), (32, 5), (33, 5), (56, 5), (64, 4)):
+    K("C08", "K08-bitpacker-w%d" % _w, "c08_bitpacker_w%d" % _w, crate="tantivy-bitpacker", timeout=120, group="bp-width",
+      title="BitPacker -> BitUnpacker::get round trip, exact byte length, width %d" % _w,
+      functions=["BitPacker::{write,flush,close}", "BitUnpacker::{new,get,get_slow_path}"],
+      bounds="%d symbolic values of width %d, symbolic read index (fast and slow path)" % (_n, _w), assumes=["values fit the announced width"])
+K("C08", "K08-ids-for-range", "c08_get_ids_for_value_range_w9", crate="tantivy-bitpacker", timeout=600, tiers="t",
+  title="BitUnpacker::get_ids_for_value_range = filter of the id range by value range", functions=["BitUnpacker::get_ids_for_value_range{,_fast}"], bounds="5 values of 9 bits, symbolic range")
+for _g in (1, 2, 3, 10, 1000):
+    K("C08", "K08-range-gcd%d" % _g, "c08_range_transform_gcd%d" % _g, crate="tantivy-columnar", timeout=120, group="c08-range-gcd",
+      title="range push-down through min/gcd transformation, gcd %d" % _g, functions=["bitpacked::transform_range_before_linear_transformation"],
+      bounds="gcd = %d; packed <= 2^40; all u64 bounds" % _g, assumes=["min_value + gcd*packed does not overflow"])
+K("C08", "K08-num-bits", "c08_num_bits_sufficient", crate="tantivy-columnar", timeout=60, title="compute_num_bits is the minimal sufficient width and one BitUnpacker accepts",
+  functions=["tantivy_bitpacker::compute_num_bits"], bounds="all u64", checks="full")
+K("C08", "K08-line", "c08_line_residuals_nonnegative_small", crate="tantivy-columnar", timeout=600,
+  title="Line::train_from / eval: residuals of the trained points are small and reconstruct the values exactly",
+  functions=["Line::train_from", "Line::eval", "compute_slope"], bounds="4 points base + offsets < 2^12, any u64 base (wrapping); residual < 2^14")
+K("C08", "K08-line-single", "c08_line_single_value", crate="tantivy-columnar", timeout=60, title="single-value column: default line", functions=["Line::train_from"], bounds="")
+K("C08", "K08-dense-rank-select", "c08_dense_rank_select_word", crate="tantivy-columnar", timeout=300,
+  title="dense optional-index block: rank / select on a 64-bit word are inverse", functions=["dense::rank_u64", "dense::select_u64", "get_bit_at"], bounds="all u64 words, all positions; unwind 66")
+K("C08", "K08-dense-bits", "c08_dense_bit_accessors", crate="tantivy-columnar", timeout=60, title="set_bit_at / get_bit_at", functions=["dense::set_bit_at", "get_bit_at"], bounds="all words", checks="full")
+K("C08", "K08-sparse-block", "c08_sparse_block_rank_select", crate="tantivy-columnar", timeout=300,
+  title="sparse optional-index block: contains / rank / rank_if_exists / select vs definition", functions=["SparseBlock::{binary_search,contains,rank,rank_if_exists,select}"], bounds="<= 4 sorted u16; unwind 6")
+K("C08", "K08-i64-order", "c03_i64_to_u64_order_roundtrip", crate="tantivy-common", timeout=60, title="monotonic mapping i64 <-> u64", functions=["common::i64_to_u64"], bounds="all", checks="full")
+K("C08", "K08-f64-order", "c03_f64_to_u64_order_roundtrip", crate="tantivy-common", timeout=60, title="monotonic mapping f64 <-> u64", functions=["common::f64_to_u64"], bounds="all non-NaN", checks="full")
+
+# ---------------------------------------------------------------------------------------------
+# C12  BM25 arithmetic
+# ---------------------------------------------------------------------------------------------
+K("C12", "K12-tf-shape", "c12_tf_factor_shape", timeout=300, title="tf_factor in [0,1], 0 at tf=0, monotone in tf; score = weight * tf_factor",
+  functions=["Bm25Weight::tf_factor", "Bm25Weight::score"], bounds="all u32 tf, cache entry in [0.3, 1e30], weight in [0, 1e6]; one symbolic cache entry at a symbolic id",
+  assumes=["the cache entry is in the range cached_tf_component can produce (>= K1*(1-B), finite)"])
+K("C12", "K12-tf-antitone", "c12_tf_factor_antitone_in_norm", timeout=300, title="tf_factor is antitone in the field-length norm", functions=["Bm25Weight::tf_factor"], bounds="as above")
+K("C12", "K12-cache-monotone", "c12_cached_tf_component_monotone", timeout=300, title="cached_tf_component monotone in the field norm, >= K1*(1-B)", functions=["bm25::cached_tf_component"], bounds="all u32 field norms, average in [1e-3, 1e9]")
+K("C12", "K12-boost", "c12_boost_by", timeout=300, title="boost_by multiplies the weight; boost 1.0 is the identity", functions=["Bm25Weight::boost_by", "score"], bounds="weights, boosts in [0, 1e6]")
+K("C12", "K12-idf-domain", "c12_idf_argument_domain", timeout=120, title="idf argument (N-n+0.5)/(n+0.5) is positive and finite for n <= N", functions=["bm25::idf (argument)"], bounds="N < 2^40")
+K("C12", "K12-combiners", "c12_combiners", timeout=120, title="Sum / DisjunctionMax / DoNothing combiners = their definitions", functions=["SumCombiner", "DisjunctionMaxCombiner", "DoNothingCombiner"], bounds="3 clauses, u8 scores, tie breaker in quarters")
+K("C12", "K12-fieldnorm-floor", "c07_fieldnorm_floor", timeout=120, title="field length quantisation (256 buckets) is the floor onto the table", functions=["fieldnorm_to_id", "id_to_fieldnorm"], bounds="all u32")
+K("C12", "K12-reqopt-score", "c13_reqopt_prog2", timeout=120, title="required/optional: score = required (+ optional when it matches) however the document was reached", functions=["RequiredOptionalScorer::score"], bounds="2-call programs", assumes=[ARR])
+
+# ---------------------------------------------------------------------------------------------
+# C15  term dictionaries (kernel level)
+# ---------------------------------------------------------------------------------------------
+K("C15", "K15-vint", "c15_sstable_vint_roundtrip", crate="tantivy-sstable", timeout=120, title="sstable VInt round trip; trailing bytes untouched", functions=["sstable::vint::serialize", "deserialize_read"], bounds="all u64; unwind 12")
+K("C15", "K15-prefix", "c15_common_prefix_len", crate="tantivy-sstable", timeout=120, title="common_prefix_len is the longest common prefix", functions=["sstable::common_prefix_len"], bounds="byte strings <= 3")
+K("C15", "K15-separator", "c15_separator_key_contract", crate="tantivy-sstable", timeout=400, title="block-index separator key: left <= key < right, not longer than left", functions=["index::find_shorter_str_in_between"], bounds="all byte strings <= 3 with left < right; unwind 6")
+K("C15", "K15-order", "c15_insert_key_enforces_order", crate="tantivy-sstable", timeout=900,
+  title="Writer::insert_key never silently accepts a key that is not strictly greater than the previous one",
+  functions=["sstable::Writer::{new,insert,insert_key,insert_value}", "DeltaWriter::write_suffix"], bounds="two keys of <= 2 bytes; unwind 6",
+  expected_panics=[r"Keys should be increasing", r"index out of bounds.*sstable/src/lib.rs"],
+  assumes=["a rejection is the panic of insert_key's own assertion / index check (expected panics of this obligation)"])
+
+# ---------------------------------------------------------------------------------------------
+# C17  sorted index (kernel level)
+# ---------------------------------------------------------------------------------------------
+K("C17", "K17-mapping", "c17_docid_mapping_perm4", timeout=240, title="DocIdMapping from new->old is the inverse permutation; remap moves values accordingly",
+  functions=["DocIdMapping::{from_new_id_to_old_id,get_new_doc_id,old_to_new_ids,remap,iter_old_doc_ids,len}"], bounds="all permutations of 4; unwind 6")
+K("C17", "K17-validation", "c17_docid_mapping_validation", timeout=600, title="DocIdMapping::new_permutation accepts exactly the permutations",
+  functions=["DocIdMapping::new_permutation"], bounds="3 ids < 8", stubs=["alloc::fmt::format -> empty String"])
+K("C17", "K17-delete-rule", "c02_delete_rule", timeout=60, title="the delete rule compares per-document opstamps, whatever their order (sorted segments permute them)", functions=["DocToOpstampMapping::is_deleted"], bounds="4 docs, arbitrary u64 opstamps")
+
+# ---------------------------------------------------------------------------------------------
+# C02  kernels
+# ---------------------------------------------------------------------------------------------
+K("C02", "K02-delete-rule", "c02_delete_rule", timeout=60, title="a delete hits a document iff the document's opstamp is strictly smaller; no mapping = always", functions=["DocToOpstampMapping::is_deleted"], bounds="4 docs, arbitrary (non-monotone) u64 opstamps, any delete opstamp", checks="full")
+K("C02", "K02-stamper", "c02_stamper", timeout=60, title="Stamper: strictly increasing, contiguous disjoint ranges, shared by clones, revert", functions=["Stamper::{new,stamp,stamps,revert}"], bounds="start < 2^62, n < 2^40")
+K("C02", "K02-batch-stamps", "c02_batch_opstamps_shape", timeout=60, title="batch stamps: count member stamps, batch stamp greater than every member (arithmetic of get_batch_opstamps on the real Stamper)", functions=["Stamper::stamps"], bounds="count < 2^40")
+K("C02", "K02-tinyset", "c02_tinyset_algebra", crate="tantivy-common", timeout=120, title="TinySet algebra: contains/insert/remove/len/ranges/pop_lowest", functions=["TinySet::*"], bounds="all 64-bit sets", checks="full")
+for _n in (63, 64, 65, 130):
+    K("C02", "K02-bitset-full-%d" % _n, "c02_bitset_full_%d" % _n, crate="tantivy-common", timeout=120, group="bitset-full",
+      title="BitSet::with_max_value_and_full(%d): exactly n members (padding clear), insert/remove keep len" % _n, functions=["BitSet::{with_max_value_and_full,insert,remove,contains,len,tinyset}"], bounds="n = %d" % _n)
+for _n in (64, 70, 129):
+    K("C02", "K02-alive-codec-%d" % _n, "c02_alive_bitset_codec_%d" % _n, timeout=300, group="alive-codec",
+      title="delete bitset codec: write_alive_bitset -> AliveBitSet::open -> is_alive / num_alive_docs, max_doc %d" % _n,
+      functions=["alive_bitset::write_alive_bitset", "AliveBitSet::{open,is_alive,is_deleted,num_alive_docs}", "BitSet::serialize", "ReadOnlyBitSet::{open,contains,len}"],
+      bounds="max_doc = %d, two symbolic removals, symbolic query; unwind 12" % _n)
+
+# ---------------------------------------------------------------------------------------------
+# C05 (kernel), C18, C19, C20
+# ---------------------------------------------------------------------------------------------
+K("C05", "K05-ownedbytes", "c05_ownedbytes_views_compose", crate="ownedbytes", timeout=400, title="OwnedBytes slice / split / advance compose by offsets; earlier views are not disturbed",
+  functions=["OwnedBytes::{new,slice,split,advance,as_slice,len}"], bounds="8-byte backing array, symbolic cut points; unwind 10")
+K("C18", "K18-lock-machine", "c18_lock_state_machine", timeout=600, title="default Directory::acquire_lock + DirectoryLockGuard: at most one live guard; acquire Ok iff free; failed acquire changes nothing; drop frees",
+  functions=["Directory::acquire_lock (default)", "directory::try_acquire_lock", "DirectoryLockGuard::drop", "retry_policy", "RetryPolicy::wait_and_retry"],
+  bounds="every program of 4 steps over {acquire, acquire with injected I/O error, drop guard}; unwind 3",
+  assumes=["stub directory with one lock slot and create-new semantics of open_write (what MmapDirectory / RamDirectory provide)"])
+K("C18", "K18-lock-statics", "c18_lock_statics", timeout=300, title="INDEX_WRITER_LOCK is non-blocking, META_LOCK blocking, different files",
+  functions=["INDEX_WRITER_LOCK", "META_LOCK", "retry_policy"], bounds="", stubs=["std::thread::current::current", "std::thread::functions::park"])
+K("C19", "K19-simple-utf8-2", "c19_simple_tokenizer_utf8_len2", timeout=1800, tiers="t", title="SimpleTokenizer offsets on every valid 2-byte UTF-8 text, every classification",
+  functions=["SimpleTokenizer::token_stream", "SimpleTokenStream::{advance,search_token_end}"], bounds="all valid UTF-8 texts of 2 bytes",
+  stubs=["char::is_alphanumeric -> arbitrary class function of the code point (sound for offset obligations)"], assumes=["token String pre-reserved (8 bytes)"])
+K("C19", "K19-simple-ascii-3", "c19_simple_tokenizer_ascii_len3", timeout=900, title="SimpleTokenizer offsets on every 3-byte ASCII text, every classification",
+  functions=["SimpleTokenizer::token_stream", "SimpleTokenStream::{advance,search_token_end}"], bounds="all ASCII texts of 3 bytes",
+  stubs=["char::is_alphanumeric -> arbitrary class function"], assumes=["token String pre-reserved"])
+K("C19", "K19-ws-utf8-2", "c19_whitespace_tokenizer_utf8_len2", timeout=900, title="WhitespaceTokenizer offsets / content on every valid 2-byte UTF-8 text",
+  functions=["WhitespaceTokenizer::token_stream", "WhitespaceTokenStream::{advance,search_token_end}"], bounds="all valid UTF-8 texts of 2 bytes", assumes=["token String pre-reserved"])
+K("C19", "K19-ws-utf8-3", "c19_whitespace_tokenizer_utf8_len3", timeout=1800, tiers="t", title="WhitespaceTokenizer, 3 bytes", functions=["WhitespaceTokenizer::*"], bounds="all valid UTF-8 texts of 3 bytes")
+K("C19", "K19-ranges", "c19_merge_overlapping_ranges", timeout=600, title="snippet highlight ranges: merged output sorted, disjoint, same union",
+  functions=["snippet::merge_overlapping_ranges"], bounds="<= 3 ranges with bounds < 1000, sorted and deduplicated as sort_and_deduplicate_ranges returns them")
+K("C20", "K20-proxy", "c20_footer_proxy_hashes_accepted_bytes", timeout=900, title="FooterProxy hashes exactly the bytes the underlying writer accepted (short writes)",
+  functions=["FooterProxy::{new,write}", "crc32fast::Hasher::{update,finalize} (baseline)"], bounds="3 bytes, <= 3 partial writes; unwind 6",
+  stubs=["crc32fast::Hasher::new -> baseline (table) implementation"])
+K("C20", "K20-crc-len2", "c20_crc_detects_byte_damage_len2", timeout=300, group="crc-damage", title="CRC-32 detects any single byte substitution / bit flip, body of 2 bytes", functions=["crc32fast baseline"], bounds="", stubs=["Hasher::new -> baseline"])
+K("C20", "K20-crc-len4", "c20_crc_detects_byte_damage_len4", timeout=600, group="crc-damage", title="CRC-32 detects any single byte substitution / bit flip, body of 4 bytes", functions=["crc32fast baseline"], bounds="", stubs=["Hasher::new -> baseline"])
+K("C20", "K20-crc-extension", "c20_crc_detects_extension", timeout=600, title="CRC-32 changes when one byte is appended / removed (bodies of 1..3 bytes)", functions=["crc32fast baseline"], bounds="", stubs=["Hasher::new -> baseline"])
+K("C20", "K20-crc-incremental", "c20_crc_incremental", timeout=300, title="split updates hash like one update", functions=["crc32fast::Hasher::update"], bounds="4 bytes, any cut", stubs=["Hasher::new -> baseline"])
+K("C20", "K20-version-gate", "c20_version_gate", timeout=300, title="Footer::is_compatible accepts exactly the supported index format versions", functions=["Footer::is_compatible"], bounds="all u32 versions",
+  stubs=["std::thread::current::current", "std::thread::functions::park"])
+
 from registry_m import *  # noqa
